@@ -458,14 +458,19 @@ impl Python {
         // Adds all the required imports needed based off whether its optional ,aliased, or needs a byte translation
         self.add_common_imports(is_optional, custom_translations.is_some(), is_aliased);
 
+        if custom_translations.is_some() {
+            // Registered under the plain type: that is the key the translation
+            // functions are looked up by when they are written out.
+            self.types_for_custom_json_translation
+                .insert(python_type.clone());
+        }
+
         let mut field_type = python_type;
 
         if not_optional_but_default {
             field_type = format!("Optional[{field_type}]");
         }
         if let Some(custom_translation) = custom_translations {
-            self.types_for_custom_json_translation
-                .insert(field_type.clone());
             field_type = format!(
                 "Annotated[{field_type}, BeforeValidator({}), PlainSerializer({})]",
                 custom_translation.deserialization_name, custom_translation.serialization_name
